@@ -121,6 +121,20 @@ def strategy_(draw, tier):
     return {'kind': 'config', 'recipe': {'nodes': nodes, 'root': 1}, 'scenario': 'modshadow',
             'gen': draw(st.sampled_from(['new_codegen', 'auto_config_codegen'])),
             'subs': [], 'mec': draw(st.sampled_from([None, None, 0, 1, 2])), 'history': False}
+  if draw(st.floats(0, 1)) < 0.05:
+    # callables (and leaf symbols) from two modules with the same last name: the package
+    # sub-module harness.vuni.fractions and the top-level module fractions
+    mk = lambda fn, **kw: {'k': 'B', 'bt': 'Config', 'fn': {'kind': 'sym', 'name': fn}, 'pos': [], 'kw': kw, 'edits': []}
+    parts = draw(st.permutations([mk('fractions:frac', x={'leaf': 1}),
+                                  mk('std.fractions:Fraction', numerator={'leaf': 1}, denominator={'leaf': 2}),
+                                  mk('things:f2', x={'leaf': {'$sym': 'fractions:frac'}}, y={'leaf': {'$sym': 'std.fractions:Fraction'}})]))
+    nodes = list(parts[:draw(st.integers(2, 3))])
+    slots = ['b', 'c', 'd']
+    nodes.append({'k': 'B', 'bt': 'Config', 'fn': {'kind': 'sym', 'name': 'things:h1'}, 'pos': [],
+                  'kw': dict({'a': {'leaf': 'uidR'}}, **{slots[i]: i for i in range(len(nodes))}), 'edits': []})
+    return {'kind': 'config', 'recipe': {'nodes': nodes, 'root': len(nodes) - 1}, 'scenario': 'samemod',
+            'gen': draw(st.sampled_from(['new_codegen', 'auto_config_codegen'])),
+            'subs': [], 'mec': draw(st.sampled_from([None, None, 1])), 'history': False}
   recipe = draw(dags.dag(
       max_nodes=8, min_nodes=2, leaf_profile='any_enum', bts=('Config', 'Config', 'Partial'),
       kinds=['B', 'B', 'B', 'list', 'tuple', 'dict', 'kdict', 'Bpos', 'AFP', 'set', 'nt'],
